@@ -6,7 +6,7 @@ trees (random shapes, inert files, every interleaving of files and sub-directori
 listing of 4-entry directories), with the listing order that read_dir actually returned fed to
 the model; the specification (multiset union of the per-file results) is evaluated in Coq on
 the implementation's own output for every run.  The real binary is run end to end as well."""
-import os, itertools, random, shutil, subprocess
+import os, itertools, random, shutil, subprocess, json
 import vlib
 from vlib import log, coq_list, coq_str
 from checks import common
@@ -72,7 +72,7 @@ def perm_runs(rng, oracle, pool, cat, ps, names, roles, pick):
 def gen_runs(rng, oracle, pool, tier):
     runs = []
     cats = sorted(oracle.cats)
-    n_random = 120 if tier == 'quick' else 700
+    n_random = 120 if tier == 'quick' else 1500
     # 1. every pool content alone in a directory, all patterns of each category (this is also the
     #    check that the oracle = analyze_dir on the file on its own)
     for n, c in pool:
@@ -140,11 +140,50 @@ def gen_runs(rng, oracle, pool, tier):
     return runs
 
 
+def binary_one(hz, oracle, t, rng, k, exe):
+    """run the real solstat binary on the tree (default configuration = all 30 patterns) in an empty
+    cwd; compare the `- file:line` items of solstat_report.md, as a multiset, in Coq, with the union
+    of the per-file results.  -> (hypotheses hold, conforms, info)"""
+    r = Run(t, 'opt', [], 'binary')
+    oracle.ensure(dc.oracle_contents([r]))
+    cats = sorted(oracle.cats)
+    dc.run_impl(hz, [r], rng, keep=True)
+    cwd = os.path.join(dc.FSROOT, 'cwd%d' % k)
+    os.makedirs(cwd)
+    p = subprocess.run([exe, '--path', r.root], cwd=cwd, stdout=subprocess.PIPE, stderr=subprocess.PIPE, timeout=600)
+    pairs = []
+    rp = os.path.join(cwd, 'solstat_report.md')
+    ok = p.returncode == 0 and os.path.exists(rp)
+    if ok:
+        inside = False
+        for line in open(rp, 'rb').read().split(b'\n'):
+            if line == b'### Lines':
+                inside = True
+            elif inside and line.startswith(b'- ') and b':' in line:
+                nm, _, ln = line[2:].rpartition(b':')
+                pairs.append((nm, int(ln)))
+            elif inside and not line.strip():
+                inside = False
+    shutil.rmtree(r.root, ignore_errors=True)
+    shutil.rmtree(cwd, ignore_errors=True)
+    tbls = coq_list('(tbl_%s, %s)' % (cat, coq_list(str(i) for i in range(len(oracle.names(cat))))) for cat in cats)
+    tt = dc.listing_term(r, oracle)
+    pterm = coq_list('(%s, %d%%Z)' % (coq_str(nm), ln) for nm, ln in pairs)
+    v = dc.coq_eval(oracle, [([r], ['all_ok_all %s %s' % (tbls, tt), 'check_report %s %s %s' % (tbls, tt, pterm),
+                                    'lenN (report_pairs %s %s)' % (tbls, tt)])], 'c03bin')[0]
+    info = {'tree': dc.tree_json(t), 'exit': p.returncode, 'stderr': p.stderr.decode('utf-8', 'replace')[-500:],
+            'report_items': [[a.decode('utf-8', 'replace'), b] for a, b in pairs], 'expected_item_count': v[2]}
+    return bool(v[0]), bool(ok and v[1]), info
+
+
 def binary_runs(rep, ctx, hz, oracle, pool, rng, n):
     """the real solstat binary, default configuration (all patterns), report compared as a
     multiset of `- file:line` items with the union the specification demands"""
     cats = sorted(oracle.cats)
-    good = [c for nm, c in pool if all(oracle.good_for(c, cat, oracle.names(cat)) for cat in cats)]
+    # ordinary sources only: the deeply nested / very long out-of-domain programs can exhaust the 8 MB
+    # main-thread stack of the unoptimised binary (stack depth is C04's business, labelled partial there)
+    good = [c for nm, c in pool if not nm.startswith('ood:') and len(c) <= 2500
+            and all(oracle.good_for(c, cat, oracle.names(cat)) for cat in cats)]
     hits = [c for c in good if any(oracle.lines(c, cat, p) for cat in cats for p in oracle.names(cat))]
     if not hits:
         log('binary runs skipped: no pool content analyses without panic under all 30 patterns')
@@ -157,38 +196,15 @@ def binary_runs(rep, ctx, hz, oracle, pool, rng, n):
         if k == 0:
             t = [F('Z.sol', hits[0]), D('sub', [F('B.sol', hits[-1]), F('x.t.sol', b'garbage {')]), F('A.sol', hits[len(hits) // 2]),
                  F('README.md', b'# hi')]
-        r = Run(t, 'opt', [], 'binary')
-        oracle.ensure(dc.oracle_contents([r]))
-        dc.run_impl(hz, [r], rng, keep=True)
-        cwd = os.path.join(dc.FSROOT, 'cwd%d' % k)
-        os.makedirs(cwd)
-        p = subprocess.run([exe, '--path', r.root], cwd=cwd, stdout=subprocess.PIPE, stderr=subprocess.PIPE, timeout=600)
-        pairs = []
-        rp = os.path.join(cwd, 'solstat_report.md')
-        ok = p.returncode == 0 and os.path.exists(rp)
-        if ok:
-            inside = False
-            for line in open(rp, 'rb').read().split(b'\n'):
-                if line == b'### Lines':
-                    inside = True
-                elif inside and line.startswith(b'- ') and b':' in line:
-                    nm, _, ln = line[2:].rpartition(b':')
-                    pairs.append((nm, int(ln)))
-                elif inside and not line.strip():
-                    inside = False
-        shutil.rmtree(r.root, ignore_errors=True)
-        shutil.rmtree(cwd, ignore_errors=True)
-        tbls = coq_list('(tbl_%s, %s)' % (cat, coq_list(str(i) for i in range(len(oracle.names(cat))))) for cat in cats)
-        tt = dc.listing_term(r, oracle)
-        pterm = coq_list('(%s, %d%%Z)' % (coq_str(nm), ln) for nm, ln in pairs)
-        v = dc.coq_eval(oracle, [([r], ['all_ok_all %s %s' % (tbls, tt), 'check_report %s %s %s' % (tbls, tt, pterm),
-                                        'lenN (report_pairs %s %s)' % (tbls, tt)])], 'c03bin')[0]
+        hyp, conforms, info = binary_one(hz, oracle, t, rng, k, exe)
         done += 1
-        if v[0] and not (ok and v[1]):
-            fails.append({'tree': dc.tree_json(t), 'exit': p.returncode, 'stderr': p.stderr.decode('utf-8', 'replace')[-500:],
-                          'report_items': [[a.decode('utf-8', 'replace'), b] for a, b in pairs], 'expected_item_count': v[2]})
-        rep.coverage.setdefault('binary_runs', []).append({'entries': dc.tree_entries(t), 'report_items': len(pairs), 'expected_items': v[2],
-                                                           'exit': p.returncode})
+        if info['exit'] < 0:
+            # killed by a signal (e.g. SIGABRT after a stack overflow): not a panic, not a statement about the union
+            rep.coverage.setdefault('binary_runs_killed_by_signal', []).append(info['exit'])
+        elif hyp and not conforms:
+            fails.append(info)
+        rep.coverage.setdefault('binary_runs', []).append({'entries': dc.tree_entries(t), 'report_items': len(info['report_items']),
+                                                           'expected_items': info['expected_item_count'], 'exit': info['exit']})
     return done, fails
 
 
@@ -303,8 +319,15 @@ def replay(obj):
         oracle = dc.Oracle(hz)
         inp = obj['input']
         if 'category' not in inp:
-            print('replay of a binary run is not supported; tree:', json.dumps(inp)[:2000])
-            return 1
+            hyp, conforms, info = binary_one(hz, oracle, dc.tree_from_json(inp['tree']), rng, 0, vlib.build_solstat_bin())
+            print('tree:', json.dumps(inp['tree'], ensure_ascii=False))
+            print('solstat --path <tree>: exit', info['exit'], info['stderr'])
+            print('items of solstat_report.md:', info['report_items'])
+            print('items the union demands:', info['expected_item_count'], '; every eligible file analysable:', hyp, '; report conforms:', conforms)
+            if info['exit'] < 0:
+                print('the binary was killed by signal %d (not a panic; outside C03)' % -info['exit'])
+                return 0
+            return 1 if (hyp and not conforms) else 0
         r = Run(dc.tree_from_json(inp['tree']), inp['category'], inp['patterns'], 'replay',
                 'given' if inp.get('creation_order') == 'given' else None)
         dc.evaluate(hz, oracle, [r], rng, 'c03replay')
@@ -318,6 +341,3 @@ def replay(obj):
     finally:
         hz.close()
         dc.cleanup()
-
-
-import json
